@@ -218,6 +218,7 @@ pub fn gen_dict_program(t: &mut Tape) -> DictProgram {
             if has_dup { 4 } else { 0 }, // 17 call the function with repeated parameter names
             2, // 18 characters of a long plain string, up to and past its end
             1, // 19 a loop that goes round more than a thousand times
+            1, // 20 an array nested forty deep, rendered in an error
         ];
         match t.weighted(&w) {
             0 => {
@@ -342,6 +343,14 @@ pub fn gen_dict_program(t: &mut Tape) -> DictProgram {
                 }
             }
             17 => src.push_str("Say Twice taking 1, 2, 3, 4\n"),
+            20 => {
+                features.push("deeply nested array in an error message");
+                let depth = [31u32, 33, 40, 70][t.draw(4) as usize];
+                src.push_str(&format!(
+                    "Let Nest at 0 be \"core\"\nPut 0 into Levels\nWhile Levels is less than {}\nBuild Levels up\nPut Nest into Shell at 0\nLet Shell at \"level\" be Levels\nPut Shell into Nest\nPut mysterious into Shell\n\nBuild Nest up\n",
+                    depth
+                ));
+            }
             19 => {
                 // (cheap: nothing but the counter; with the clock seam whole
                 // minutes pass while it runs)
@@ -494,7 +503,7 @@ pub fn same_shape_decoy(src: &str) -> String {
 /// Parses and lints a decoy text in `buf` (results ignored, panics caught);
 /// a generated decoy program is also executed.
 /// Says and computes ordinary values of every kind (see the decoy selection).
-const WARM_UP: &str = "Say 0\nSay 1\nSay 0 minus 1\nSay 0.5\nSay 2 over 3\nSay 1000000\nSay \"0\" plus 0\nSay 1 plus \" level\"\nSay true\nSay false\nSay nothing\nSay mysterious\nSay \"\"\nSay \"text\"\nPut 0 into Zero\nBuild Zero up\nKnock Zero down\nSay Zero\nLet Shelf at 0 be \"zero\"\nLet Shelf at \"key\" be \"value\"\nLet Shelf at \"other\" be \"thing\"\nSay Shelf at 0\nJoin Shelf into Glue\nSay Glue\nCut \"a,b\" into Pieces with \",\"\nSay Pieces at 1\nCast \"12\" into Twelve\nSay Twelve\nTurn up Twelve\nEcho takes Sound\nGive back Sound plus Sound\n\nSay Echo taking 0\nSay Echo taking \"x\"\nPut \"ĠġĢģĤĥĦħĨĩĪīĬĭĮįİıĲĳĴĵĶķĸĹĺĻļĽľĿŀŁłŃńŅņŇňŉŊŋŌōŎŏŐőŒœŔŕŖŗŘřŚśŜŝŞşŠšŢţŤťŦŧŨũŪūŬŭŮůŰűŲųŴŵŶŷŸŹźŻżŽž\" into Cousins\nSay Cousins at 33\nCut Cousins into Bits\nSay Bits at 65\nJoin Bits\nSay 256 plus 0\nSay 65536 plus 48\nSay 0 minus 0\nSay \"TEXT\"\nSay \" text \"\n";
+const WARM_UP: &str = "Listen to Heard\nSay Heard\nListen to Heard\nListen\nSay 0\nSay 1\nSay 0 minus 1\nSay 0.5\nSay 2 over 3\nSay 1000000\nSay \"0\" plus 0\nSay 1 plus \" level\"\nSay true\nSay false\nSay nothing\nSay mysterious\nSay \"\"\nSay \"text\"\nPut 0 into Zero\nBuild Zero up\nKnock Zero down\nSay Zero\nLet Shelf at 0 be \"zero\"\nLet Shelf at \"key\" be \"value\"\nLet Shelf at \"other\" be \"thing\"\nSay Shelf at 0\nJoin Shelf into Glue\nSay Glue\nCut \"a,b\" into Pieces with \",\"\nSay Pieces at 1\nCast \"12\" into Twelve\nSay Twelve\nTurn up Twelve\nEcho takes Sound\nGive back Sound plus Sound\n\nSay Echo taking 0\nSay Echo taking \"x\"\nPut \"ĠġĢģĤĥĦħĨĩĪīĬĭĮįİıĲĳĴĵĶķĸĹĺĻļĽľĿŀŁłŃńŅņŇňŉŊŋŌōŎŏŐőŒœŔŕŖŗŘřŚśŜŝŞşŠšŢţŤťŦŧŨũŪūŬŭŮůŰűŲųŴŵŶŷŸŹźŻżŽž\" into Cousins\nSay Cousins at 33\nCut Cousins into Bits\nSay Bits at 65\nJoin Bits\nSay 256 plus 0\nSay 65536 plus 48\nSay 0 minus 0\nSay \"TEXT\"\nSay \" text \"\n";
 
 /// The process warm-up (see `Property::process_warm_up`): a fixed set of
 /// programs - the warm-up program, programs that listen (input starting with
